@@ -28,6 +28,7 @@ type Obligation struct {
 	regionScript string // script re-verifying the obligation outside a known-finding region
 	replayed     bool
 	noRetry      bool
+	prefix       string // declarations and assumptions (the script without its final goal assertion)
 	goal, path   string
 	regionTerm   string
 	nlines       int
@@ -383,7 +384,8 @@ func (g *Gen) finalize() {
 		if o.regionTerm != "" {
 			o.regionScript = head + body(o.nlines) + "(assert (not " + o.regionTerm + "))\n" + o.script + "(check-sat)\n"
 		}
-		o.script = head + body(o.nlines) + o.script + "(check-sat)\n"
+		o.prefix = head + body(o.nlines)
+		o.script = o.prefix + o.script + "(check-sat)\n"
 		o.SmtBytes = len(o.script)
 		if o.oracle != "" {
 			o.oracle = head + o.oracle + "(check-sat)\n"
